@@ -117,11 +117,18 @@ class Group:
             return False
         return leaf in g.items_
 
+    # h5py iterates the members of a group in NAME order (track_order is off by default), not in the order they were created
     def __iter__(self):
-        return iter(self.items_)
+        return iter(sorted(self.items_))
 
     def keys(self):
-        return self.items_.keys()
+        return sorted(self.items_)
+
+    def values(self):
+        return [self.items_[k] for k in sorted(self.items_)]
+
+    def __len__(self):
+        return len(self.items_)
 
     def __delitem__(self, name):
         g, leaf = self._resolve(name)
@@ -133,7 +140,7 @@ class Group:
         return self.create_group(name)
 
     def items(self):
-        return self.items_.items()
+        return [(k, self.items_[k]) for k in sorted(self.items_)]
 
 
 class File(Group):
